@@ -14,6 +14,7 @@ EXPLANATION = (
     'queue; (5) SliceFile::visit_with presents the file, then the module whenever there is one, then iterates contents once dispatching every '
     'Definition variant to its own visit_with, with no early exit; (6) unpatched references are not descended into; (7) the compiler\'s own '
     'validator overrides every Visitor method. Decides these clauses on all paths, not the recorded sequence for particular programs.')
+THOROUGH_RERUN = ['release']     # the same rules over the release build (no debug assertions): verified clean on the pinned tree
 ASSUMPTIONS = ['rustc type checking and MIR construction', 'flattened aliases of anonymous types are presented under their user (DESIGN.md, C20 observation)']
 EXCEPTIONS = {('Interface', 'bases'): 'base interfaces are references to other definitions, not part of the stated traversal',
               ('Enum', 'underlying'): 'the underlying type is a primitive reference, not part of the stated traversal'}
